@@ -324,6 +324,11 @@ def _locate_droplets_in_mask_cylindrical(mask: ScalarField) -> Emulsion:
                 droplet.position[2] -= grid.length
                 # check whether the droplet lies in the original box
                 if z_min <= droplet.position[2] <= z_max:
+                    # wrap the position so that the two periodic images of a droplet that
+                    # sits exactly on the boundary coincide and only one of them is kept
+                    droplet.position[2] = (
+                        droplet.position[2] - z_min
+                    ) % grid.length + z_min
                     droplets.append(droplet)
 
             _logger.info("Kept %d central droplets.", len(droplets))
